@@ -4,3 +4,4 @@ import KestrelProps.C19
 import KestrelProps.C15
 import KestrelProps.C17pk
 import KestrelProps.C09
+import KestrelProps.C10enc
